@@ -675,7 +675,7 @@ func TestVerifC15(t *testing.T) {
 	rep := verifutil.NewReport()
 	defer rep.Write()
 	nScen := verifutil.Scale(1, 3)
-	steps := verifutil.Scale(100, 260)
+	steps := verifutil.Scale(140, 260)
 	if v, err := strconv.Atoi(os.Getenv("C15_STEPS")); err == nil {
 		steps = v
 	}
@@ -690,6 +690,10 @@ func TestVerifC15(t *testing.T) {
 			mode = s
 		}
 		o, kinds := c15Opts(seed, mode, sc)
+		nsteps := steps
+		if mode == "wasm" {
+			nsteps = steps * 6 / 10 // every transaction compiles a WASM module: fewer, heavier steps
+		}
 		w := NewWorld(o)
 		twin := w.AddTwin()
 		for _, r := range w.Replicas {
@@ -705,8 +709,8 @@ func TestVerifC15(t *testing.T) {
 		x := &c15Ctx{w: w, twin: twin, rep: rep, gen: gen, K: K}
 		rep.Count("scenarios:"+mode, 1)
 		rng := verifutil.NewRng(seed, 1515)
-		jumpAt := steps * 6 / 10
-		for i := 0; i < steps; i++ {
+		jumpAt := nsteps * 6 / 10
+		for i := 0; i < nsteps; i++ {
 			rep.Progress("C15 scenario %d seed %d mode %s step %d", sc, seed, mode, i)
 			if i == jumpAt {
 				gen.JumpClock(time.Duration(31*24+rng.Range(0, 48)) * time.Hour)
